@@ -119,6 +119,10 @@ def window(e, base):
         if kind == "RangeFull":
             return (s0, e0)
         return None
+    if e[0] == "field" and e[2] == 0 and e[1][0] == "variant" and e[1][2] == "Some" and e[1][1][0] == "call" \
+            and e[1][1][1].endswith(("::get", "::get_mut")) and len(e[1][1][2]) == 2 and e[1][1][2][1][0] == "agg":
+        # the Some payload of x.get(a..b) / x.get_mut(a..b) is x[a..b]
+        return window(("call", "core::slice::index::<impl core::ops::Index<I> for [T]>::index", e[1][1][2]), base)
     if e[0] == "field" and e[2] in (0, 1) and e[1][0] == "call" and e[1][1].endswith(("::split_at", "::split_at_mut")) and len(e[1][2]) == 2:
         # x.split_at(k) = (x[..k], x[k..])
         w = window(e[1][2][0], base)
@@ -319,6 +323,12 @@ def binary_writer(F):
             m = match(("bin", "Lt", ("call", "core::slice::<impl [T]>::len", (P(2),)), V("k")), n(d))
             if m:
                 gate = (m["k"], (taken == "otherwise") if vals == [0] else bool(taken))
+            # the same gate spelled `out.get_mut(..K)`: None exactly when out.len() < K
+            mg = match(("discr", ("call", V("g"), (P(2), ("agg", "adt:core::ops::RangeTo::RangeTo", (V("k"),))))), n(d))
+            if mg and mg["g"].endswith(("::get_mut", "::get")) and taken != "otherwise":
+                vn = S.variant(d, taken)
+                if vn in ("Some", "None"):
+                    gate = (mg["k"], vn == "None")
         ret = n(p.ret)
         writes = []
         unknown = []
